@@ -70,6 +70,84 @@ theorem next_spurious {sys : Sys} {s s' : State} {j : Nat}
       exact ⟨by simpa using hp, hc, rfl⟩
     · cases h
 
+/-- The five ways a `select` step can happen. -/
+theorem exec_select {sys : Sys} {s s' : State} {j k p : Nat} {t : Thread} {v : Val} {cs : List SelCase}
+    (h : exec sys s j t k p v (.select cs) = some s') :
+    (cs[k]? = none ∧ k = cs.length ∧ (∀ c ∈ cs, caseReady sys s c = false) ∧
+      s' = s.setThread j { t with st := .parked }) ∨
+    (∃ ch r n, cs[k]? = some (.recv ch r n) ∧ s.closed.contains ch = true ∧
+      s' = s.setThread j (goto (t.putOpt r (.nat 0)) n)) ∨
+    (∃ ch r n tp rp np, cs[k]? = some (.recv ch r n) ∧ s.closed.contains ch = false ∧
+      s.threads[p]? = some tp ∧ findSend ch (parkedCases sys tp) = some (rp, np) ∧
+      s' = ((s.setThread p { tp with pc := np, st := .run }).setThread j
+              (goto (t.putOpt r (tp.get rp)) n)).emit (.xfer ch p j (tp.get rp))) ∨
+    (∃ ch r n, cs[k]? = some (.send ch r n) ∧ s.closed.contains ch = true ∧ s' = s.doPanic) ∨
+    (∃ ch r n tp rp np, cs[k]? = some (.send ch r n) ∧ s.closed.contains ch = false ∧
+      s.threads[p]? = some tp ∧ findRecv ch (parkedCases sys tp) = some (rp, np) ∧
+      s' = ((s.setThread p { (tp.putOpt rp (t.get r)) with pc := np, st := .run }).setThread j
+              (goto t n)).emit (.xfer ch j p (t.get r))) := by
+  simp only [exec] at h
+  split at h
+  · rename_i hk
+    split at h
+    · rename_i hc
+      cases h
+      left
+      refine ⟨hk, hc.1, ?_, rfl⟩
+      intro c hcm
+      have := hc.2
+      simp only [List.all_eq_true] at this
+      simpa using this c hcm
+    · cases h
+  · rename_i ch r n hk
+    split at h
+    · rename_i hc
+      cases h
+      right; left
+      exact ⟨ch, r, n, hk, hc, rfl⟩
+    · rename_i hc
+      split at h
+      · cases h
+      · rename_i tp htp
+        split at h
+        · cases h
+        · rename_i rp np hf
+          cases h
+          right; right; left
+          exact ⟨ch, r, n, tp, rp, np, hk, by simpa using hc, htp, hf, rfl⟩
+  · rename_i ch r n hk
+    split at h
+    · rename_i hc
+      cases h
+      right; right; right; left
+      exact ⟨ch, r, n, hk, hc, rfl⟩
+    · rename_i hc
+      split at h
+      · cases h
+      · rename_i tp htp
+        split at h
+        · cases h
+        · rename_i rp np hf
+          cases h
+          right; right; right; right
+          exact ⟨ch, r, n, tp, rp, np, hk, by simpa using hc, htp, hf, rfl⟩
+
+/-- The ways a `close` step can happen. -/
+theorem exec_close {sys : Sys} {s s' : State} {j k p : Nat} {t : Thread} {v : Val} {ch n : Nat}
+    (h : exec sys s j t k p v (.close ch n) = some s') :
+    (s.closed.contains ch = true ∧ s' = s.doPanic) ∨
+    (s.closed.contains ch = false ∧ s.threads.any (parkedSender sys ch) = true ∧ s' = s.doPanic) ∨
+    (s.closed.contains ch = false ∧ s.threads.any (parkedSender sys ch) = false ∧
+      s' = (({ s with closed := ch :: s.closed, threads := s.threads.map (claimClosed sys ch) }.setThread j
+              (goto t n)).emit (.closed ch))) := by
+  simp only [exec] at h
+  split at h
+  · rename_i hc; cases h; left; exact ⟨hc, rfl⟩
+  · rename_i hc
+    split at h
+    · rename_i hs; cases h; right; left; exact ⟨by simpa using hc, hs, rfl⟩
+    · rename_i hs; cases h; right; right; exact ⟨by simpa using hc, by simpa using hs, rfl⟩
+
 theorem getElem?_lt {α} {l : List α} {i : Nat} {x : α} (h : l[i]? = some x) : i < l.length := by
   rcases Nat.lt_or_ge i l.length with h' | h'
   · exact h'
